@@ -13,6 +13,7 @@ import (
 //
 //	u <lit> <s>                      ParseZqlString(lit)            -> hex of the result
 //	e <op> <lit> <s> <field>...      parse `f <op> lit`, EvalBool with f := each field -> bits
+//	b <op> <lit> <s> <value>...      the same through Store.QueryIds of a bolt store (c11_bolt.go)
 //
 // <lit> is the quoted literal, built by the *generator* from s with a random choice, per
 // control character occurrence, of escaped or raw form (raw control characters are not
@@ -76,6 +77,25 @@ func c11Emit(out *bufio.Writer, s string, r *rng) {
 		fmt.Fprintf(out, " %s", toWire(f))
 	}
 	out.WriteByte('\n')
+	// the same through a bolt-backed store (ids and a string field), for one string in eight and
+	// always for short ones: values must be usable bbolt keys (non-empty) and distinct
+	if len(s) <= 2 || r.chance(1, 8) {
+		seen := map[string]bool{}
+		var vals []string
+		for _, f := range c11Fields(s, r) {
+			if f != "" && !seen[f] {
+				seen[f] = true
+				vals = append(vals, f)
+			}
+		}
+		if len(vals) > 0 {
+			fmt.Fprintf(out, "b %s %s %s", pick(r, c11Ops), toWire(litE), toWire(s))
+			for _, f := range vals {
+				fmt.Fprintf(out, " %s", toWire(f))
+			}
+			out.WriteByte('\n')
+		}
+	}
 }
 
 func c11Gen(tier string, seed uint64, out *bufio.Writer) {
@@ -156,6 +176,8 @@ func c11Exec(line string) string {
 			}
 		}
 		return b.String()
+	case "b":
+		return c11ExecBolt(f)
 	}
 	return "bad-case"
 }
